@@ -289,6 +289,14 @@ func newHSPair(cfg hsConfig) *hsPair {
 		p.passR = entropy(cfg.Seed, "otherpass", 14)
 	case "short":
 		p.passR = p.passR[:13]
+	case "pad0":
+		// differs only by a trailing zero byte (equal as zero-padded keys)
+		p.passR = append(p.passR, 0)
+	case "trail0":
+		// the initiator's phrase ends in a zero byte which the responder's
+		// lacks
+		p.passI[13] = 0
+		p.passR = append([]byte(nil), p.passI[:13]...)
 	}
 	if !cfg.NilAuth {
 		p.auth = entropy(cfg.Seed, "auth", cfg.AuthLen)
